@@ -127,6 +127,7 @@ fn sweep(run: &Arc<Run>, variant: Variant) {
 
 fn main() {
     let run = Run::new("C02", "model_checking");
+    vp_net::maybe_replay(&run);
     let mut outcomes = Vec::new();
     let variants = [Variant::V6T, Variant::V6N, Variant::V7];
     for v in variants {
